@@ -266,8 +266,30 @@ static var Table_Iter_Next(var self, var curr);
 
 static bool Table_Mem(var self, var key);
 static var Table_Get(var self, var key);
+static size_t Table_Len(var self);
 
 static int Table_Cmp(var self, var obj) {
+  
+  /*
+  ** The slot order of a Table depends on its history (insertion order,
+  ** reserved size, collisions): whether two Tables hold the same bindings
+  ** is decided by looking every key of one up in the other.
+  */
+  
+  if (Table_Len(self) is len(obj)) {
+    bool same = true;
+    var key = Table_Iter_Init(self);
+    while (key isnt Terminal) {
+      if (not mem(obj, key) or neq(Table_Get(self, key), get(obj, key))) {
+        same = false;
+        break;
+      }
+      key = Table_Iter_Next(self, key);
+    }
+    if (same) { return 0; }
+  }
+  
+  /* Otherwise some order is imposed by walking both in iteration order */
   
   int c;
   var item0 = Table_Iter_Init(self);
